@@ -96,9 +96,12 @@ fn no_acc<T>(_: &T) -> String {
 
 fn d_generic<T: Clone + PartialEq + Debug + Display>(bytes: Bytes, e: &Entry<T>) -> String {
     guard(|| {
-        verif::reset(u64::MAX);
+        // Arm the hook's octet budget so that a decoder loop becomes a PANIC line instead of a hang
+        // (the proved bound is 545 * len, DESIGN.md C07).
+        verif::reset(4096 * (bytes.len() as u64) + (1 << 20));
         let result = (e.decode)(bytes);
         let cost = verif::octets();
+        verif::reset(u64::MAX);
         let v = match result {
             Ok(v) => v,
             Err(err) => return format!("ERR {} cost={}", print::decode_error(&err).join(" "), cost),
